@@ -291,7 +291,11 @@ def run(ctx) -> None:
     cm = prog.function("vcs.VCSAPI.commit")
     for s in effects.sites[cm.fq]:
         if s.effect == "FS_WRITE":
-            ok = bool(s.detail.get("temp")) or (s.detail.get("via") == "os.unlink" and unparse(s.node.args[0]).endswith("tmp_file.name"))
+            # the temporary file: whatever local holds the result of tempfile.NamedTemporaryFile(...) / mkstemp(...)
+            temp_names = {unparse(tg) for _st, tg, v in shapes.iter_assigns(cm.node) if isinstance(v, ast.Call) and unparse(v.func).split(".")[-1] in ("NamedTemporaryFile", "TemporaryFile", "mkstemp")}
+            temp_names |= {unparse(it.optional_vars) for w_ in ast.walk(cm.node) if isinstance(w_, ast.With) for it in w_.items
+                           if it.optional_vars is not None and isinstance(it.context_expr, ast.Call) and unparse(it.context_expr.func).split(".")[-1] in ("NamedTemporaryFile", "TemporaryFile")}
+            ok = bool(s.detail.get("temp")) or (s.detail.get("via") == "os.unlink" and s.node.args and any(unparse(s.node.args[0]) == f"{t_}.name" for t_ in temp_names))
             ctx.check("R4", ok, f"VCSAPI.commit L{s.node.lineno}: {s.detail.get('via')} concerns the temporary log file only", "vcs.VCSAPI.commit: writes or removes something other than its temporary file",
                       unparse(s.node), loc=s.loc)
     shapes.check_passthrough(ctx, "R4", "cli._update", "v2rewrite.rewrite_files", {"file_patterns": "cfg.file_patterns"})
